@@ -84,6 +84,12 @@ element and answers `true` (flags "not significant": not a `SetDataset`) -/
 def vecImpl (n : Nat) : Impl (List Quad) :=
   listImpl n (fun d q => (d ++ [q], true)) (fun d q => (d.filter (fun x => !quadEq x q), true))
 
+/-- `Vec<Gspo<T>>` (quads held as `(g, [s, p, o])`): `insert` pushes and answers `true`; `remove` drops
+only the FIRST matching element (`position` + `swap_remove`) and answers whether there was one -/
+def vecFirstImpl (n : Nat) : Impl (List Quad) :=
+  listImpl n (fun d q => (d ++ [q], true))
+    (fun d q => if d.any (quadEq · q) then (d.eraseP (quadEq · q), true) else (d, false))
+
 /-! ### shared vocabulary -/
 
 /-- `Quad::into_triple`: drop the graph name -/
@@ -97,6 +103,9 @@ def dpat (gm : GM) (sm pm om : TM) : Pat := ⟨[gm, .gn sm, .gn pm, .gn om]⟩
 
 /-- the pattern `triples_matching(sm, pm, om)` of a graph -/
 def gpat (sm pm om : TM) : Pat := ⟨[.gn sm, .gn pm, .gn om]⟩
+
+/-- does the triple pattern match the triple part of `q`? (`Triple::matched_by(sm, pm, om)`) -/
+def Spec.tripleMatched (sm pm om : TM) (q : Quad) : Bool := sm.matches q.s && pm.matches q.p && om.matches q.o
 
 /-- `Graph::contains` (trait default): `triples_matching([s], [p], [o]).next().is_some()` -/
 def defaultContains (triplesMatching : TM → TM → TM → List Quad) (t : Quad) : Bool :=
@@ -118,6 +127,48 @@ def callMut {σ : Type} (I : Impl σ) (c : Call) (d : σ) (q : Quad) : σ × Mut
   match c with
   | .insert => let (d', r) := I.insert d q; (d', MutRes.ofOption r)
   | .remove => let (d', b) := I.remove d q; (d', .ok b)
+
+/-- result of a bulk mutation (`insert_all`, `remove_all`, `remove_matching`, `retain_matching`) through an
+adapter: the count, or the error that ended it -/
+inductive BulkRes where
+  | ok (n : Nat)
+  | errInner
+  | errOnlyDefaultGraph
+  deriving Repr, DecidableEq, Inhabited
+
+/-! ### the DEFAULT bulk methods of `MutableGraph` / `MutableDataset` (`api/src/graph.rs`, `api/src/dataset.rs`)
+
+No adapter overrides them (checked by the extractor), so on a mutable view they are these loops over the
+VIEW's own `insert` / `remove` / `triples` / `triples_matching`. -/
+namespace Defaults
+variable {σ : Type}
+
+/-- `insert_all`: `self.insert_triple(t.spo())?` for each element, counting the `true`s; the first error ends it -/
+def insertAll (ins : σ → Quad → σ × MutRes) : σ → List Quad → Nat → σ × BulkRes
+  | s, [], c => (s, .ok c)
+  | s, q :: qs, c =>
+    match ins s q with
+    | (s', .ok b) => insertAll ins s' qs (if b then c + 1 else c)
+    | (s', .errInner) => (s', .errInner)
+    | (s', .errOnlyDefaultGraph) => (s', .errOnlyDefaultGraph)
+
+/-- `remove_all`: `self.remove_triple(t.spo())?` for each element, counting the `true`s -/
+def removeAll (rem : σ → Quad → σ × MutRes) : σ → List Quad → Nat → σ × BulkRes
+  | s, [], c => (s, .ok c)
+  | s, q :: qs, c =>
+    match rem s q with
+    | (s', .ok b) => removeAll rem s' qs (if b then c + 1 else c)
+    | (s', .errInner) => (s', .errInner)
+    | (s', .errOnlyDefaultGraph) => (s', .errOnlyDefaultGraph)
+
+/-- `remove_matching`: collect `self.triples_matching(ms, mp, mo)` first, then `remove_all` -/
+def removeMatching (rem : σ → Quad → σ × MutRes) (s : σ) (matching : List Quad) : σ × BulkRes :=
+  removeAll rem s matching 0
+
+/-- `retain_matching`: collect the elements of `self.triples()` NOT `matched_by(ms, mp, mo)`, then `remove_all` -/
+def retainMatching (rem : σ → Quad → σ × MutRes) (s : σ) (all : List Quad) (keep : Quad → Bool) : σ × BulkRes :=
+  removeAll rem s (all.filter (fun t => !keep t)) 0
+end Defaults
 
 /-! ### `UnionGraph<T: Dataset>(T)` -/
 namespace UnionGraph
@@ -183,6 +234,20 @@ def insert (d : σ) (g : GName) (t : Quad) : σ × MutRes :=
 /-- `MutableGraph::remove`: `let (g, d) = self.gd(); d.<datasetGraphRemoveCalls>(s, p, o, g)` -/
 def remove (d : σ) (g : GName) (t : Quad) : σ × MutRes :=
   callMut I datasetGraphRemoveCalls d ⟨t.s, t.p, t.o, g⟩
+
+/-- `MutableGraph::insert_all` / `remove_all` / `remove_matching` / `retain_matching` are NOT overridden: the
+trait defaults over this view's own methods -/
+def insertAll (d : σ) (g : GName) (ts : List Quad) : σ × BulkRes :=
+  Defaults.insertAll (fun s t => insert I s g t) d ts 0
+
+def removeAll (d : σ) (g : GName) (ts : List Quad) : σ × BulkRes :=
+  Defaults.removeAll (fun s t => remove I s g t) d ts 0
+
+def removeMatching (d : σ) (g : GName) (sm pm om : TM) : σ × BulkRes :=
+  Defaults.removeMatching (fun s t => remove I s g t) d (triplesMatching I d g sm pm om)
+
+def retainMatching (d : σ) (g : GName) (sm pm om : TM) : σ × BulkRes :=
+  Defaults.retainMatching (fun s t => remove I s g t) d (triples I d g) (Spec.tripleMatched sm pm om)
 end DatasetGraph
 
 /-! ### `GraphAsDataset<T: Graph>(T)` — `Graph::as_dataset`, `as_dataset_mut`, `into_dataset` -/
@@ -215,13 +280,17 @@ def insert (g : σ) (q : Quad) : σ × MutRes :=
 def remove (g : σ) (q : Quad) : σ × MutRes :=
   if q.g.isNone then callMut I graphAsDatasetRemoveCalls g ⟨q.s, q.p, q.o, none⟩
   else (g, .ok false)
+
+/-- `MutableDataset::insert_all` / `remove_all` are NOT overridden: the trait defaults over this view's own
+`insert` / `remove` (`remove_matching` / `retain_matching` can not be called on a `GraphAsDataset`: its
+`MutationError` is not `From<Error>`) -/
+def insertAll (g : σ) (qs : List Quad) : σ × BulkRes := Defaults.insertAll (insert I) g qs 0
+
+def removeAll (g : σ) (qs : List Quad) : σ × BulkRes := Defaults.removeAll (remove I) g qs 0
 end GraphAsDataset
 
 /-! ### what the property demands (independent of the adapter code): plain list operations -/
 namespace Spec
-
-/-- does the triple pattern match the triple part of `q`? -/
-def tripleMatched (sm pm om : TM) (q : Quad) : Bool := sm.matches q.s && pm.matches q.p && om.matches q.o
 
 /-- the union of all graphs: the image of the quads (a triple held in two graphs shows twice) -/
 def union (qs : List Quad) : List Quad := qs.map intoTriple
